@@ -451,7 +451,7 @@ func (m *machine) slice(c interface{}, hasLo bool, lo interface{}, hasHi bool, h
 	n, ok := lenOf(c)
 	cpc := capOf(c)
 	switch c.(type) {
-	case []interface{}, []int64, []string, []float64:
+	case []interface{}, []int64, []string, []float64, [][]int64:
 	default:
 		ok = false
 	}
@@ -488,6 +488,8 @@ func (m *machine) slice(c interface{}, hasLo bool, lo interface{}, hasHi bool, h
 	case []string:
 		return cv[l:h:mx]
 	case []float64:
+		return cv[l:h:mx]
+	case [][]int64:
 		return cv[l:h:mx]
 	}
 	fail()
@@ -812,6 +814,31 @@ func (m *machine) add(l, r interface{}) interface{} {
 			undet("append of a numeric slice to a string slice")
 		}
 		return append(lv, mustConv(r, kString).(string))
+	case [][]int64:
+		// a list of lists appended to a typed slice of slices: every inner list is
+		// converted as a whole (a fresh []int64 each); one inconvertible element
+		// anywhere fails the append before anything is stored
+		if rv, ok := r.([]interface{}); ok {
+			var conv [][]int64
+			for _, e := range rv {
+				inner, isList := e.([]interface{})
+				if !isList {
+					undet("append of a non-list element to a slice of slices")
+				}
+				row := make([]int64, 0, len(inner))
+				for _, x := range convElems(inner, kInt64) {
+					row = append(row, x.(int64))
+				}
+				conv = append(conv, row)
+			}
+			// (as for flat lists of another element type: the Go loop
+			// `for _, e := range r { l = append(l, T(e)) }`, in place while the capacity lasts)
+			for _, row := range conv {
+				lv = append(lv, row)
+			}
+			return lv
+		}
+		undet("append to a slice of slices: right side outside the alphabet")
 	case string:
 		if rs, ok := r.(string); ok {
 			return lv + rs
